@@ -278,8 +278,7 @@ Lemma good_local : forall s ths t th th',
   Good s (set_nth t th' ths).
 Proof.
   intros s ths t th th' G Hn Hc HT. pose proof G as G0. destruct G0.
-  apply (good_intro s ths t th s th'); auto.
-  - intros v. Show. rewrite Hc. lia.
-  - intros t0 th0 _ Hn0. eauto.
+  apply (good_intro s ths t th s th'); auto; try (intros v; rewrite Hc; lia).
+  intros t0 th0 _ Hn0. eauto.
 Qed.
 End Inv.
